@@ -68,6 +68,7 @@ type PRes struct {
 	Redirect    int         `json:"redirect,omitempty"`  // answer 302 to resource index Redirect-1
 	Wild        bool        `json:"wild,omitempty"`      // answers any path of this host; body identity = hash of the received target
 	NoDate      bool        `json:"no_date,omitempty"`
+	DateSkewS   int         `json:"date_skew_s,omitempty"` // the origin's Date header lies this many seconds in the past (negative: future): an aged response, a lagging clock
 	NoCloseEcho bool        `json:"no_close_echo,omitempty"` // raw responses: do not echo "close" although asked (the connection is closed anyway)
 }
 
@@ -382,6 +383,8 @@ func (w *proxyWorld) originHandler(rw http.ResponseWriter, req *http.Request) {
 	e.Res, e.Ver = rid, v
 	if r.NoDate {
 		h["Date"] = nil
+	} else if r.DateSkewS != 0 {
+		h.Set("Date", now.Add(-time.Duration(r.DateSkewS)*time.Second).UTC().Format(http.TimeFormat))
 	}
 	for _, cc := range r.CC {
 		h.Add("Cache-Control", cc)
